@@ -1,48 +1,106 @@
-"""C11 optional/complex vectors and arrays keep parallel storages in lockstep: explicit-state BFS (E1)."""
+"""C11 optional/complex vectors and arrays keep parallel storages in lockstep: explicit-state BFS (E1) plus two scenario
+enumerations (arguments that refer into the container itself; size sweep over every flag block type)."""
 import os
 import vlib
 
 LEVEL = "model_checking"
 HERE = os.path.dirname(os.path.abspath(__file__))
 SRC = os.path.join(HERE, "harness.cpp")
+EXTRA = os.path.join(HERE, "extra.cpp")
 
 
 def build():
+    """Returns ({tag: binary}, proxy_assign_is_well_formed). The four translation units are compiled side by side."""
     # capability probe: whole-element assignment to a complex proxy from an xcomplex value (ill-formed on the pinned tree)
     b = vlib.compile_cxx(SRC, "c11-pa", std="c++14", opt="-O1", san="asan", defines=["CX_PROXY_ASSIGN=1"], expect_fail=True)
-    if b:
-        return b, True
-    return vlib.compile_cxx(SRC, "c11", std="c++14", opt="-O1", san="asan", defines=["CX_PROXY_ASSIGN=0"]), False
+    pa = bool(b)
+    d = ["CX_PROXY_ASSIGN=%d" % (1 if pa else 0)]
+    jobs = [
+        (lambda: b or vlib.compile_cxx(SRC, "c11", std="c++14", opt="-O1", san="asan", defines=d)),
+        # extra.cpp, alias part: arguments referring into the container itself
+        (lambda: vlib.compile_cxx(EXTRA, "c11x-alias", std="c++14", opt="-O1", san="asan", defines=d + ["C11_ALIAS=1"])),
+        # extra.cpp, size sweep over the block types of ISO C++
+        (lambda: vlib.compile_cxx(EXTRA, "c11x-sweep", std="c++14", opt="-O1", san="asan", defines=d)),
+        # extra.cpp in the GNU dialect: unsigned __int128 as flag block type (std::is_scalar holds for it only there). This entry
+        # of the instantiation manifest is REQUIRED: it is well-formed on the pinned tree, so a tree on which it no longer compiles
+        # is a check error (exit 2), not a pass.
+        (lambda: vlib.compile_cxx(EXTRA, "c11x-wide", std="gnu++14", opt="-O1", san="asan", defines=d + ["C11_WIDE=1"])),
+    ]
+    bins = vlib.parallel(jobs)
+    return dict(zip(("c11", "c11x-alias", "c11x-sweep", "c11x-wide"), bins)), pa
 
 
 def plan(tier):
+    """(tag, args) of every harness run of the tier."""
     if tier == "quick":
-        return [["--inst", "ov-u64-S4"], ["--inst", "ov-u8-S4"], ["--inst", "ov-u8-B9", "--max-states", "20000"], ["--inst", "oa"], ["--inst", "cv-S3"], ["--inst", "ca"], ["--inst", "fault-S3"]]
-    return [["--inst", "ov-u64-S6"], ["--inst", "ov-u8-S5"], ["--inst", "ov-u8-B9", "--max-states", "300000"], ["--inst", "oa"], ["--inst", "cv-S4"], ["--inst", "ca"], ["--inst", "fault-S4"]]
+        bfs = [["--inst", "ov-u64-S4"], ["--inst", "ov-u8-S4"], ["--inst", "ov-u8-B9", "--max-states", "20000"], ["--inst", "oa"], ["--inst", "cv-S3"], ["--inst", "ca"], ["--inst", "fault-S3"]]
+        t = []
+    else:
+        bfs = [["--inst", "ov-u64-S6"], ["--inst", "ov-u8-S5"], ["--inst", "ov-u8-B9", "--max-states", "300000"], ["--inst", "ov-u64-B65", "--max-states", "40000"],
+               ["--inst", "oa"], ["--inst", "cv-S4"], ["--inst", "ca"], ["--inst", "fault-S4"]]
+        t = ["--thorough"]
+    runs = [("c11", a) for a in bfs]
+    runs += [("c11x-alias", ["--inst", i] + t) for i in ("alias-ov-u64", "alias-ov-u8", "alias-oa", "alias-cv", "alias-ca")]
+    runs += [("c11x-sweep", ["--inst", i] + t) for i in ("sweep-ov-u8", "sweep-ov-u16", "sweep-ov-u32", "sweep-ov-u64", "sweep-oa-u8", "sweep-oa-u64", "sweep-cx")]
+    runs += [("c11x-wide", ["--inst", i] + t) for i in ("sweep-ov-u128", "sweep-oa-u128")]
+    if tier != "quick":
+        runs += [("c11x-wide", ["--inst", "alias-ov-u128"] + t)]
+    return runs
 
 
 def run(ctx):
-    b, pa = build()
+    bins, pa = build()
     dl = str(int(max(60, ctx.time_left() - 30)))
-    vlib.parallel([(lambda a=a: ctx.run_harness(b, a + ["--deadline", dl], tag="c11")) for a in plan(ctx.tier)])
+
+    def one(tag, a):
+        # the BFS harness takes a deadline; the scenario enumerations are small enough to always run to the end
+        return ctx.run_harness(bins[tag], a + (["--deadline", dl] if tag == "c11" else []), tag=tag)
+
+    # longest first
+    runs = sorted(plan(ctx.tier), key=lambda r: 0 if r[0] == "c11" else 1)
+    vlib.parallel([(lambda tag=tag, a=a: one(tag, a)) for tag, a in runs])
     ctx.stats["evaluations"] = ctx.stats.get("transitions", 0)
     ctx.stats["distinct_nontrivial"] = ctx.stats.get("states", 0)
     ctx.note("complex proxy whole-element assignment (proxy = xcomplex value) is %s on this tree" % ("well-formed and exercised" if pa else "ill-formed (private member access across instantiations); both parts are written through real()/imag() instead"))
     ctx.note("begin()/end() of the array variants are ill-formed on this tree (IT::value_type on a pointer iterator) and therefore have no executions to check")
+    ctx.note("assignment between two xoptional element proxies of the same type (c[i] = c[j]) is ill-formed on this tree (deleted: reference members), as is assignment of a "
+             "complex proxy from a proxy of another instantiation (c[i] = cc[j]); those designators are enumerated as resize / constructor arguments only")
+    ctx.note("'transitions' = BFS transitions + scenarios of the alias and sweep parts (every scenario is one judged operation on a state rebuilt from a fresh container); "
+             "'states' counts BFS states only; 'scenarios', 'alias_*' and 'sweep_*' give the scenario parts separately")
     ctx.rule = ("BFS over the raw states (both storages, element by element, and their two lengths) of real xoptional_vector<int> (flags in xdynamic_bitset<size_t> and <uint8_t>), xoptional_array<int,3>, "
                 "xcomplex_vector<double>, xcomplex_array<double,3>; every constructor (default via poisoned placement in both initialisation forms, (n), (n,value), (n,optional present/missing/reference closure), "
                 "(n,xcomplex value/reference closure), initializer list), resize(s) / resize(s,v) / resize(s,optional|xcomplex) for every s, every element write (value x flag) through [] at front back, forward and "
                 "reverse iterators, arrow, value-only, flag-only, plain value, direct storage writes, copy, move - applied to every reachable state; model vector<pair>; after every transition the two storage "
                 "lengths and contents, in every new state all six access paths, at() beyond size, iteration and ==/!= against rebuilt and perturbed containers. To fixpoint for the stated maximal size. "
                 "Fault part (instantiation fault-S*): xoptional_vector over an element type whose copy constructor can throw, history explorer: every resize / constructor is also run with the k-th element copy throwing "
-                "for every k; afterwards both storages must still have the length of size() and pair up position by position")
+                "for every k; afterwards both storages must still have the length of size() and pair up position by position. "
+                "Alias part (instantiations alias-*, complete enumeration of scenarios, each a history from a fresh container): every operation that takes a value / optional / xcomplex / proxy argument "
+                "(resize(s,arg), c = C(s,arg), proxy = arg through [] at front back and forward / reverse iterators, single-part writes, c = c) with the argument REFERRING INTO THE CONTAINER ITSELF: an element of "
+                "a storage (value()[j], has_value()[j], real()[j], imag()[j]), the proxy of element j obtained through every access path (const and non-const [] at front back, forward / const / reverse iterators), "
+                "a reference closure built from storage elements of two positions (j,k); for every base size, flag pattern, source position(s), target size (shrinking, equal, growing) and capacity preparation "
+                "(capacity == size, slack 16, slack 200: growth in place and growth reallocating one or both storages, classified and counted from the capacities observed); vectors and arrays of both families; "
+                "model: the pair the designated element held before the call; ASan is part of the oracle. "
+                "Sweep part (instantiations sweep-*): flag block types uint8_t, uint16_t, uint32_t, uint64_t and unsigned __int128 (GNU dialect build), sizes around one and two blocks of each type and around 64, "
+                "eight construction routes (the constructors, the three resize overloads growing, shrinking and growing again), then EVERY index x twenty single-element write paths from a copy of the built state; "
+                "after each write both storages are compared with the model at every position, the written element is read back through every access path, and ==/!= against the unwritten state must agree with "
+                "the model; arrays of 130 elements over uint8_t / uint64_t / unsigned __int128 flag blocks, complex vector and array likewise")
     ctx.assumptions += [
-        "element values {0,7} and flags {0,1}; complex parts from {0,1,2,3,4,5,6}; maximal size 4 (quick) / 5-6 (thorough); flag-block crossing (size 9 over uint8_t blocks) with boundary indices",
+        "element values {0,7} and flags {0,1}; complex parts from {0,1,2,3,4,5,6}; maximal size 4 (quick) / 5-6 (thorough); flag-block crossing (size 9 over uint8_t blocks; thorough: size 65 over 64-bit blocks, state cap 40000) with boundary indices",
         "constructors taking a size are called with the container's own size for the array variants, as the statement says",
         "operator< and friends of xoptional_sequence are not part of the statement and are not judged",
+        "alias part: base sizes {1,2,3,9} (thorough {1,2,3,4,5,8,9,17}), contents 10+i / 40+i (pairwise distinct), all 2^n flag patterns for n <= 3 and none/all/even/odd above (thorough: also first-only, last-only); "
+        "targets {0,1,n-1,n,n+1,9,16,17,65,130} (thorough adds n+2,2n,2n+1,8,64,128,129,200,201,257); capacity preparations {tight,16,200} (thorough adds 64); second positions of two-position closures: all for n <= 4, "
+        "{j, n-1-j, n-1} above; flag blocks uint8_t and uint64_t (thorough: also unsigned __int128)",
+        "alias part: a user-built reference closure whose parts are CROSSED between the two storages (xcomplex<double&,double&>(c.imag()[j], c.real()[k])) is not enumerated: it is not an element of the container "
+        "(see NOTES.md, 'Not enumerated')",
+        "sweep part: sizes {0,1,2,3,w-1,w,w+1,2w-1,2w,2w+1,63,64,65} for block width w (thorough: every size 0..max(2w+2,130)); written values 5 / flags both; unsigned __int128 blocks are checked in -std=gnu++14 "
+        "(the library requires is_scalar<block_type>, which holds for that type only in the GNU dialects); the other harnesses stay -std=c++14",
     ]
 
 
 def replay(ctx, rec):
-    b, _ = build()
-    ctx.run_harness(b, rec["args"], tag="c11")
+    bins, _ = build()
+    tag = rec.get("harness") or "c11"
+    if tag not in bins:
+        tag = "c11"
+    ctx.run_harness(bins[tag], rec["args"], tag=tag)
